@@ -1,10 +1,6 @@
 // C18: the embedded-map loader and the detection predicate.
 pub open spec fn ref_url(r: SourceMapRef) -> Seq<char> { match r { SourceMapRef::Ref(u) => u@, SourceMapRef::LegacyRef(u) => u@ } }
 pub open spec fn is_data_url(u: Seq<char>) -> bool { u.len() >= 5 && u.subrange(0, 5) == "data:"@ }
-/// the keys a serialised regular or Hermes map always has (version, sources, mappings), or those of an index map (version, sections)
-pub open spec fn has_map_keys(m: MinimalRawSourceMap) -> bool {
-    (m.version is Some && m.sources is Some && m.mappings is Some) || m.sections is Some
-}
 // the reference comment: first line that begins with one of the two 21-character prefixes
 pub open spec fn ref_line(cs: Seq<char>) -> bool { seq_starts_with(cs, "//# sourceMappingURL="@) || seq_starts_with(cs, "//@ sourceMappingURL="@) }
 /// lines[k] is the first line that is an error or begins with a reference comment (k == lines.len(): there is none)
